@@ -258,6 +258,20 @@ def _field_guards(ck: Check, prog: Program, f: FuncInfo) -> None:
                        f'member {key!r} reaches the constructor without a type check that raises DeserializationError: '
                        f'structurally invalid messages would be accepted')
             continue
+        # every other use of the member (registry lookups, constructor arguments, …) comes after its type check
+        gnodes = [c for c, _ in guards]
+        early = []
+        for n in cfg.stmt_nodes():
+            if n in gnodes or n is defnode or isinstance(n.ast, ast.Raise) or n.kind == 'cond' and classify_cond(prog, f, n.ast).subject == var:
+                continue
+            if var in {x.id for frag in node_exprs(n) for x in walk_no_defs(frag) if isinstance(x, ast.Name) and isinstance(x.ctx, ast.Load)}:
+                if n.id in cfg.reachable(cfg.entry, avoid_nodes=gnodes, avoid_edges=none_edges):
+                    early.append(n)
+        ck.ob('FIELD-GUARD', f'{short(f.qualname)}: member {key!r} is not used before its type check', not early)
+        for n in early:
+            ck.finding('FIELD-GUARD', f.qualname, f'member {key!r} used before its type check', f.module.rel, n.line,
+                       f'`{norm(n.ast)[:80]}` uses member {key!r} before the check that rejects wrong JSON types: an unexpected type '
+                       f'(e.g. an unhashable list/object where a scalar is expected) raises TypeError instead of DeserializationError')
         extra = widest - admitted
         ck.ob('FIELD-GUARD', f'{short(f.qualname)}: member {key!r} admits only {sorted(admitted)}', not extra)
         if extra:
